@@ -46,7 +46,7 @@ func (rn *runner) runOpsCase(d *docCtx, c *opsCase, verbose bool) *opsOutcome {
 		rn.sum.Fail("replay: start node not in document", c, nil)
 		return nil
 	}
-	out := runOps(d, k, c.Ops)
+	out := runOps(d, k, c.Ops, c.Repaired)
 	if verbose {
 		for i := range out.xres {
 			fmt.Printf("%3d %-28s ref=%+v idr=%+v\n", i, c.Ops[i].coq(), out.xres[i], out.ires[i])
@@ -58,8 +58,8 @@ func (rn *runner) runOpsCase(d *docCtx, c *opsCase, verbose bool) *opsOutcome {
 	}
 	if out.failAt >= 0 {
 		fc := *c
-		fc.Ops = shrinkOps(d, k, c.Ops[:out.failAt+1], out.failWhat)
-		o2 := runOps(d, k, fc.Ops)
+		fc.Ops = shrinkOps(d, k, c.Ops[:out.failAt+1], out.failWhat, c.Repaired)
+		o2 := runOps(d, k, fc.Ops, c.Repaired)
 		last := len(fc.Ops) - 1
 		rn.sum.Fail(out.failWhat, &fc, map[string]interface{}{
 			"index": last, "op": fc.Ops[last], "shrunk_from": out.failAt + 1,
@@ -193,7 +193,7 @@ func main() {
 	sum.Extra["reference_normalisation"] = "xmlquery.Parse output: DeclarationNode removed, CharDataNode retyped TextNode (harness/cmd/c11/gen.go normaliseRef)"
 
 	r := vh.NewRng(o.Seed)
-	ndocs := o.Count(260, 6000)
+	ndocs := o.Count(360, 12000)
 	const seqPerDoc, coqRunsPerDoc, exprPerDoc = 10, 3, 22
 	exprFeat := map[string]bool{}
 	for di := 0; di < ndocs; di++ {
@@ -228,8 +228,12 @@ func main() {
 			if r.Chance(0.6) {
 				k = r.Pick(len(d.xnodes))
 			}
-			ops := genOps(r, d, k)
-			c := &opsCase{Kind: "ops", Doc: text, Start: d.paths[k], Ops: ops}
+			fx := s%3 == 2 // every third sequence runs against the repaired reference (may do Q2)
+			ops := genOps(r, d, k, fx)
+			c := &opsCase{Kind: "ops", Doc: text, Start: d.paths[k], Ops: ops, Repaired: fx}
+			if fx {
+				sum.Hist("ops:against-repaired-reference")
+			}
 			out := rn.runOpsCase(d, c, false)
 			sum.Count("ops|"+opsCanon(c), hasAttr && out.touched)
 			sum.Hist("ops:sequences")
@@ -242,7 +246,7 @@ func main() {
 				sum.Hist("ops:with-Value-on-document-node(Q1)")
 			}
 			if s < coqRunsPerDoc && out.failAt < 0 {
-				runs = append(runs, coqRun(d.paths[k], ops, out))
+				runs = append(runs, coqRun(d.paths[k], ops, out, fx))
 			}
 			if di < 2 && s == 0 {
 				sum.Sample(map[string]interface{}{"kind": "ops", "doc": text, "start": pathLabel(d.paths[k]), "ops": len(ops),
